@@ -33,6 +33,11 @@ def run(chk):
     from . import tapeinv
     chk.rule("T-INV", "Tap window invariant: inductive over every writer and every exit; asserts and bounds implied; headers read only at block ends")
     tapeinv.run(chk, prog)
+    # switching fast loading on or off is a flag, not an action on the machine
+    cg, fa = cc.scans(prog)
+    chk.rule("T-NONINT/fast-load-switch", "set_fast_load changes its flag only")
+    cc.check_mod_set(chk, prog, cg, fa, "set_fast_load", {(prog.adt_path("rustzx_core", "Emulator"), "fast_load")},
+                     "T-NONINT/fast-load-switch/set_fast_load", "its own flag")
     return chk.finish(EXPL)
 
 
